@@ -1,7 +1,7 @@
 """C17 - nesting depth never changes meaning or exhausts the Python stack."""
 from contracts import core, rt_walk
 from pyvc.report import Report
-from .common import run_fragments, run_rt
+from .common import run_fragments, run_rt, dependency_layer
 from . import wiring
 
 
@@ -24,4 +24,5 @@ def run(tier, seed):
     run_rt(rep, [rt_walk.VisitC()], tier)
     rep.assumptions.append('CodeBuilder.has_available_blocks / max_num_blocks = 20 (outsourcer, trusted); CPython limits: 20 nested blocks, 100 indentation levels')
     rep.assumptions.append('rule recursion depth is bounded by memory only because every rule invocation is a request to the trampoline _run (C07 wiring), whose stack is a heap list')
+    dependency_layer(rep, tier)
     return rep.finish()
